@@ -331,6 +331,32 @@ impl Report {
 
     /// Breadth-first exploration of all event sequences of a scenario up to `max_depth`.
     pub fn run_bfs<S: Scenario>(&mut self, scn: &S, max_depth: usize, wall_cap: Duration) {
+        // Replay: VERIF_ONLY="<scenario name>:h=<i,j,k>" runs that single history with a trace.
+        if let Ok(only) = std::env::var("VERIF_ONLY") {
+            let Some((pn, h)) = only.rsplit_once(":h=") else {
+                return;
+            };
+            if pn != scn.name() {
+                return;
+            }
+            let h: Vec<usize> = h.split(',').filter(|x| !x.is_empty()).map(|x| x.parse().unwrap()).collect();
+            std::env::set_var("VERIF_TRACE", "1");
+            println!("== replay scenario {} history {:?}", pn, h);
+            let mut run = scn.setup();
+            for &c in &h {
+                let m = scn.menu(&run);
+                println!("  -- event {}", m.get(c).cloned().unwrap_or_else(|| "?".into()));
+                scn.apply(&mut run, c);
+            }
+            println!("  -- horizon");
+            scn.finish(&mut run);
+            let r = scn.result(run);
+            for v in &r.viols {
+                println!("   VIOL {} :: {}", v.sig, v.detail);
+            }
+            println!("== {} violation(s), counters {:?}", r.viols.len(), r.counters);
+            std::process::exit(if r.viols.is_empty() { 0 } else { 1 });
+        }
         let t0 = Instant::now();
         let mut ps = PartSummary {
             name: scn.name(),
@@ -480,6 +506,10 @@ impl Report {
 
     /// Writes evidence, prints verdict lines, returns the process exit code.
     pub fn finish(mut self) -> i32 {
+        if std::env::var("VERIF_ONLY").is_ok() {
+            println!("replay: no part of {} matched VERIF_ONLY", self.property);
+            return 2;
+        }
         let known = load_known();
         let wall = self.started.elapsed().as_secs_f64();
         // vacuity guards
